@@ -43,6 +43,7 @@ from zeroconf._updates import RecordUpdateListener  # noqa: E402
 T0 = 1_000_000  # first instant of every history (0 is falsy inside the library)
 
 TRUSTED_COMMON = [
+    "instant 0 is falsy in DNSRecord.__init__ / DNSIncoming (`created or current_time_millis()`): the harness starts at 1 000 000 ms; the theorems quantify over all instants",
     "harness/cachecommon.py: the stub `zc` (cache, record_manager, question_history, async_notify_all, dummy loop) stands in for "
     "Zeroconf; only DNSCache, RecordManager, _ServiceBrowserBase (callback side), AsyncEngine._async_cache_cleanup, DNSOutgoing and "
     "DNSIncoming are real code",
@@ -60,9 +61,19 @@ _REAL_NOW = _zc_cache.current_time_millis
 _CLOCK_MODULES = (_zc_cache, _zc_dns, _zc_engine, _zc_rm, _zc_browser)
 
 
+_TICKING = [None]   # during a purge op: number of clock readings so far
+
+
 def _now():
+    """the injected clock.  During a purge op it advances by 1 ms per reading (now, now+1, now+2, ...): code that reads the clock once per
+    event cannot tell, code that mixes two readings of one event (seeded defect C04-w3-seed3) is handed two different instants"""
     v = _CLOCK[0]
-    return _REAL_NOW() if v is None else v
+    if v is None:
+        return _REAL_NOW()
+    if _TICKING[0] is not None:
+        v = v + _TICKING[0]
+        _TICKING[0] += 1
+    return v
 
 
 def install_clock():
@@ -313,6 +324,52 @@ class _SvcListener(ServiceListener):
         self.w.cbs.append((self.bid, "U", type_, name, None, self.w.snapshot()))
 
 
+class _DummyTask:
+    """stands for the query-sender task `_async_start` creates (the scheduler is C10's subject)"""
+
+    def cancel(self):
+        pass
+
+
+def _fake_ensure_future(coro):
+    coro.close()
+    return _DummyTask()
+
+
+class _InlineQueue:
+    """`ServiceBrowser.queue` without the delivery thread: `run()` does `_fire_service_state_changed_event(event)` for every
+    event it gets from the queue; here `put` does it at once"""
+
+    def __init__(self, browser):
+        self.b = browser
+
+    def put(self, event):
+        if event is not None:
+            self.b._fire_service_state_changed_event(event)
+
+
+class _ThreadedLike(_zc_browser._ServiceBrowserBase):
+    """a browser that runs the *real* `ServiceBrowser.async_update_records_complete` override (the threaded API's own
+    queue-and-clear loop) with an inline queue instead of the delivery thread"""
+
+    async_update_records_complete = _zc_browser.ServiceBrowser.async_update_records_complete
+
+    def __init__(self, *a, **kw):
+        super().__init__(*a, **kw)
+        self.queue = _InlineQueue(self)
+
+
+def start_browser(b):
+    """the real `_async_start` (listener registration with the PTR questions = initial replay); only
+    `asyncio.ensure_future` is replaced, so that no event loop is needed"""
+    orig = _zc_browser.asyncio.ensure_future
+    _zc_browser.asyncio.ensure_future = _fake_ensure_future
+    try:
+        b._async_start()
+    finally:
+        _zc_browser.asyncio.ensure_future = orig
+
+
 class Probes:
     def __init__(self, names, recs, triples):
         self.names = list(names)
@@ -377,6 +434,7 @@ class World:
         self.reacts = []
         self.executed = []
         self.failed = []
+        self.cbs2 = []
 
     def listener(self, lid):
         l = self._listeners.get(lid)
@@ -404,6 +462,10 @@ class World:
             "U": [_opt(c.async_get_unique(r)) for r in p.objs],
             "D": [_opt(c.get_by_details(t[0], t[1], t[2])) for t in p.triples],
             "A": [[rl(r) for r in c.get_all_by_details(t[0], t[1], t[2])] for t in p.triples],
+            # the event-loop-only twins (separate bodies in _cache.py)
+            "AE": [[rl(r) for r in c.async_entries_with_name(n)] for n in p.names],
+            "AS": [[rl(r) for r in c.async_entries_with_server(n)] for n in p.names],
+            "AA": [[rl(r) for r in c.async_all_by_details(t[0], t[1], t[2])] for t in p.triples],
         }
 
     def ptr_view(self):
@@ -422,6 +484,7 @@ class World:
         """run one op on the real code; returns its observation (dict of strings / lists of strings);
         with observe=False the readers are not evaluated (`R` is None)"""
         self.log, self.cbs, self.executed, self.failed = [], [], [], []
+        self.cbs2 = []
         self.legacy = []
         self.zc.notified = 0
         k = op[0]
@@ -443,23 +506,35 @@ class World:
                     self.reacts = []
             elif k == "X":
                 _CLOCK[0] = float(op[1])
-                _zc_engine.AsyncEngine._async_cache_cleanup(self.engine)
+                _TICKING[0] = 0
+                try:
+                    _zc_engine.AsyncEngine._async_cache_cleanup(self.engine)
+                finally:
+                    _TICKING[0] = None
             elif k == "LA":
                 self.rm.async_add_listener(self.listener(op[1]), None)
             elif k == "LR":
                 self.rm.async_remove_listener(self.listener(op[1]))   # unguarded: absent -> whatever the code does
             elif k == "BA":
                 _CLOCK[0] = float(op[2])
-                b = _zc_browser._ServiceBrowserBase(self.zc, list(op[3]), listener=_SvcListener(self, op[1]))
-                old = self.browsers.pop(op[1], None)
-                if old is not None and old in self.rm.listeners:
-                    self.rm.async_remove_listener(old)
-                self.browsers[op[1]] = b
-                self.rm.async_add_listener(b, [DNSQuestion(t, K._TYPE_PTR, K._CLASS_IN) for t in b.types])
+                bid = op[1]
+                # even ids: the asyncio flavour's callback path; odd ids: the threaded flavour's override.  A second, plain
+                # handler is registered next to the listener (Signal.fire with several handlers)
+                cls = _zc_browser._ServiceBrowserBase if bid % 2 == 0 else _ThreadedLike
+
+                def second(zeroconf, service_type, name, state_change, _bid=bid):
+                    self.cbs2.append((_bid, {"Added": "A", "Removed": "R", "Updated": "U"}[state_change.name], service_type, name))
+
+                b = cls(self.zc, list(op[3]), handlers=[second], listener=_SvcListener(self, bid))
+                old = self.browsers.pop(bid, None)
+                if old is not None:
+                    old._async_cancel()
+                self.browsers[bid] = b
+                start_browser(b)          # the real _async_start
             elif k == "BR":
                 b = self.browsers.pop(op[1], None)
                 if b is not None:
-                    self.rm.async_remove_listener(b)
+                    b._async_cancel()     # the real cancel (scheduler.stop, async_remove_listener, task.cancel)
             else:
                 raise HarnessError("unknown op %r" % (op,))
         except HarnessError:
@@ -485,6 +560,7 @@ class World:
         obs["legacy"] = list(self.legacy)
         obs["n"] = self.zc.notified
         obs["cb"] = [list(x) for x in self.cbs]
+        obs["cb2"] = [list(x) for x in self.cbs2]
         obs["ids"] = self.registered_ids()
         obs["S"] = self.snapshot()
         obs["R"] = self.readers() if (observe or obs["err"]) else None   # an op that raised ends the history: observe it
@@ -520,10 +596,11 @@ def _recs(l):
 
 def render_readers(R):
     o = lambda x: "~" if x is None else x  # noqa: E731
-    return "N=%s E=%s S=%s G=%s U=%s D=%s A=%s" % (
+    return "N=%s E=%s S=%s G=%s U=%s D=%s A=%s AE=%s AS=%s AA=%s" % (
         sep(",", R["N"]), sep(";", [_recs(x) for x in R["E"]]), sep(";", [_recs(x) for x in R["S"]]),
         sep(";", [o(x) for x in R["G"]]), sep(";", [o(x) for x in R["U"]]), sep(";", [o(x) for x in R["D"]]),
-        sep(";", [_recs(x) for x in R["A"]]))
+        sep(";", [_recs(x) for x in R["A"]]), sep(";", [_recs(x) for x in R["AE"]]), sep(";", [_recs(x) for x in R["AS"]]),
+        sep(";", [_recs(x) for x in R["AA"]]))
 
 
 def render_cb(cbs):
@@ -552,8 +629,9 @@ def render(obs):
                                                     _ids(obs["c2"]), obs["s2"] if obs["s2"] is not None else "!")
         return "%s n=%d cb=%s %s" % (head, 1 if obs["n"] else 0, render_cb(obs["cb"]), render_readers(obs["R"]))
     if k == "X":
-        e = "!" if obs["u"] is None else _recs([n for n, _ in obs["u"]])
-        return "X e=%s c1=%s c2=%s cb=%s %s" % (e, _ids(obs["c1"]), _ids(obs["c2"]), render_cb(obs["cb"]), render_readers(obs["R"]))
+        u = "!" if obs["u"] is None else sep(",", ["%s>%s" % (n, "~" if o is None else o) for n, o in obs["u"]])
+        return "X u=%s c1=%s c2=%s n=%d cb=%s %s" % (u, _ids(obs["c1"]), _ids(obs["c2"]), 1 if obs["n"] else 0, render_cb(obs["cb"]),
+                                                     render_readers(obs["R"]))
     if k in ("LA", "LR"):
         return "%s %s" % (k, _ids(obs["ids"]))
     if k == "BA":
@@ -757,6 +835,12 @@ def check_readers(ref, probes, R):
         cmp_list("entries_with_server", n, got, [i for i in d if i[0] == "s" and i[4][3] == n.lower()])
     for t, got in zip(probes.triples, R["A"]):
         cmp_list("get_all_by_details", tuple(t), got, [i for i in d if (i[1], i[2], i[3]) == (t[0].lower(), t[1], t[2])])
+    for n, got in zip(probes.names, R.get("AE", [])):
+        cmp_list("async_entries_with_name", n, got, [i for i in d if i[1] == n.lower()])
+    for n, got in zip(probes.names, R.get("AS", [])):
+        cmp_list("async_entries_with_server", n, got, [i for i in d if i[0] == "s" and i[4][3] == n.lower()])
+    for t, got in zip(probes.triples, R.get("AA", [])):
+        cmp_list("async_all_by_details", tuple(t), got, [i for i in d if (i[1], i[2], i[3]) == (t[0].lower(), t[1], t[2])])
     for t, got in zip(probes.triples, R["D"]):
         cands = [i for i in d if (i[1], i[2], i[3]) == (t[0].lower(), t[1], t[2])]
         if got is None:
